@@ -27,7 +27,8 @@ CONSTANTS UndoOnFailure,  \* TRUE = derived in-memory state is changed only afte
           ReportFailure,  \* TRUE = an error of a step is returned to the caller (the code); FALSE = swallowed (relevance)
           Emit
 
-Ops     == {"rb_commit", "wal_commit", "import", "halt", "recover", "drop", "backup_sync", "set_cluster_id"}
+Ops     == {"rb_commit", "wal_commit", "import", "halt", "recover", "drop", "backup_sync", "set_cluster_id",
+            "replica_apply", "replica_snapshot", "open"}
 Targets == {"rb", "rb_hot", "wal_frames", "wal_clean"}
 Kinds   == {"error", "unreadable", "unwritable", "notify"}
 
@@ -40,33 +41,42 @@ Applies(o, t) ==
     [] o = "drop"           -> t \in {"rb", "wal_frames", "wal_clean"}
     [] o = "backup_sync"    -> t \in {"rb", "wal_frames"}
     [] o = "set_cluster_id" -> t = "rb"
+    [] o = "replica_apply"    -> t \in {"rb", "wal_frames"}   \* a replica applies one streamed transaction file
+    [] o = "replica_snapshot" -> t \in {"rb", "wal_frames"}   \* a replica is given a snapshot (it joins, or it left the history)
+    [] o = "open"             -> TRUE                          \* the store is opened on an existing data directory (restart)
 
 \* the phases of each operation, in the order of the code
 Phases(o) ==
   CASE o = "rb_commit"      -> <<"lock_held", "validate", "ltx_tmp", "clear_tail", "publish", "setpos">>
     [] o = "wal_commit"     -> <<"read_frames", "ltx_tmp", "publish", "setpos">>
-    [] o = "import"         -> <<"lock", "ltx_tmp", "publish", "inval_journal", "trunc_wal", "apply", "setpos">>
+    [] o = "import"         -> <<"lock", "ltx_tmp", "publish", "rollback_journal", "checkpoint", "apply", "setpos">>
     [] o = "halt"           -> <<"lock", "recover", "register">>
     [] o = "recover"        -> <<"open_journal", "open_db", "playback", "truncate", "remove_journal">>
     [] o = "drop"           -> <<"ltx_tmp", "publish", "remove_files", "setpos">>
     [] o = "backup_sync"    -> <<"fetch_pos", "open_ltx", "upload">>
     [] o = "set_cluster_id" -> <<"validate", "write_tmp", "rename", "store_mem">>
+    [] o = "replica_apply"    -> <<"position_check", "ltx_tmp", "publish", "apply", "setpos">>
+    [] o = "replica_snapshot" -> <<"ltx_tmp", "publish", "remove_old_files", "apply", "setpos">>
+    [] o = "open"             -> <<"read_header", "remove_shm", "trim_wal_to_ltx", "rollback_journal", "checkpoint",
+                                   "init_checksums", "reapply_last_ltx">>
 
 \* phases whose failure stops the node on purpose (there is no way to tell SQLite / the state is half written)
 Fatal(o, ph) == \/ o = "wal_commit"
                 \/ (o = "import" /\ ph \in {"apply", "setpos"})
                 \/ (o = "drop" /\ ph \in {"remove_files", "setpos"})
+                \/ (o \in {"replica_apply", "replica_snapshot"} /\ ph \in {"apply", "setpos"})
 \* phases that change state LiteFS derives from the files and keeps in memory
 TouchesMem(o, ph) == \/ (o = "rb_commit" /\ ph = "clear_tail")
-                     \/ (o = "import" /\ ph = "trunc_wal")
+                     \/ (o = "import" /\ ph = "checkpoint")
                      \/ (o = "set_cluster_id" /\ ph = "store_mem")
                      \/ (o = "halt" /\ ph = "register")
 \* phases after which the operation has taken effect
-Publishing(o, ph) == \/ (o \in {"rb_commit", "wal_commit", "import", "drop"} /\ ph = "setpos")
+Publishing(o, ph) == \/ (o \in {"rb_commit", "wal_commit", "import", "drop", "replica_apply", "replica_snapshot"} /\ ph = "setpos")
                      \/ (o = "halt" /\ ph = "register")
                      \/ (o = "recover" /\ ph = "remove_journal")
                      \/ (o = "backup_sync" /\ ph = "upload")
                      \/ (o = "set_cluster_id" /\ ph = "store_mem")
+                     \/ (o = "open" /\ ph = "reapply_last_ltx")
 
 VARIABLES op, target, kind, at,  \* the case: fault of this kind in phase number `at` (0 = none)
           pc,        \* next phase (Len+1 = finished)
@@ -81,7 +91,7 @@ NPh == Len(Phases(op))
 Ph  == Phases(op)[pc]
 
 \* a refused cache notification is considered where LiteFS itself rewrites pages an application may have cached
-KindApplies(o, k) == k = "notify" => o \in {"recover", "halt", "import"}
+KindApplies(o, k) == k = "notify" => o \in {"recover", "halt", "import", "replica_apply", "replica_snapshot"}
 
 Init == /\ op \in Ops /\ target \in Targets /\ Applies(op, target) /\ kind \in Kinds /\ KindApplies(op, kind)
         /\ at \in 0..Len(Phases(op))
@@ -95,7 +105,7 @@ StepOK ==
   /\ result = "pending" /\ pc <= NPh /\ at # pc
   /\ lock' = (IF TakesLock(op) /\ pc = 1 THEN "held" ELSE IF pc = NPh /\ op # "halt" THEN "free" ELSE lock)
   /\ effect' = (effect \/ Publishing(op, Ph))
-  /\ hot' = (IF (op = "recover" /\ Ph = "remove_journal") \/ (op \in {"halt", "import"} /\ Ph \in {"recover", "inval_journal"}) THEN FALSE ELSE hot)
+  /\ hot' = (IF (op = "recover" /\ Ph = "remove_journal") \/ (op \in {"halt", "import", "open"} /\ Ph \in {"recover", "rollback_journal"}) THEN FALSE ELSE hot)
   /\ pc' = pc + 1
   /\ result' = (IF pc = NPh THEN "ok" ELSE result)
   /\ UNCHANGED <<op, target, kind, at, mem, exited, retried>>
